@@ -48,10 +48,13 @@ func h04Ref(unit []byte) (out []byte, nNs, nMB int, binary bool) {
 
 func H04Grammar() {
 	n := vndParam("len")
-	raw := vndBytes("u", n)
-	for _, c := range raw {
+	tail := vndBytes("u", n)
+	for _, c := range tail {
 		vndAssume(c == 'n' || c == 's' || c == 'M' || c == 'B' || c == 'x' || c == '/' || c == '*' || c == '-' || c == ' ')
 	}
+	// a concrete head makes longer units reachable: a word that merely contains "ns" or "MB"
+	// before the symbolic rest (which may hold a real component)
+	raw := append([]byte([]string{"", "xns", "xMB", "nsx-"}[vndParam("head")]), tail...)
 	unit := string(raw)
 	want, nNs, nMB, binary := h04Ref(raw)
 	v, u := Tidy(1, unit)
